@@ -203,6 +203,10 @@ Record tx := { t_dt : Z; t_ext : ext_option; t_signer : addr; t_msgs : list msg 
 Definition tick (s : st) (dt : Z) : st :=
   {| vals := vals s; grants := grants s; now := now s + Z.max dt 1; min_rate := min_rate s |}.
 
+(** blocks without transactions of the case (chain setup) only move the clock *)
+Definition advance (s : st) (dt : Z) : st :=
+  {| vals := vals s; grants := grants s; now := now s + dt; min_rate := min_rate s |}.
+
 Definition route_tx (c : cfg) (e : ext_option) : route :=
   match e with
   | NoExt => if nonevm_known c then RouteNonEVM else RouteUnknown
@@ -224,15 +228,30 @@ Definition ante_ok (c : cfg) (x : tx) : bool :=
   | RouteReject | RouteUnknown => false
   end.
 
-(** one DeliverTx in a block of its own: new state and "accepted?" *)
-Definition deliver (c : cfg) (w : world) (s : st) (x : tx) : st * bool :=
-  let s1 := tick s (t_dt x) in
+(** one DeliverTx on the current block state: new state and "accepted?" *)
+Definition deliver_in (c : cfg) (w : world) (s1 : st) (x : tx) : st * bool :=
   if ante_ok c x then
     match run_msgs c w (t_msgs x) s1 with
     | Some s2 => (s2, true)
     | None => (s1, false)
     end
   else (s1, false).
+
+(** one DeliverTx in a block of its own (the clock advances first) *)
+Definition deliver (c : cfg) (w : world) (s : st) (x : tx) : st * bool :=
+  deliver_in c w (tick s (t_dt x)) x.
+
+(** genesis: x/genutil delivers the gentxs through DeliverTx during InitChain (block height 0, genesis time);
+    a gentx that fails makes InitChain panic — the chain does not start.  [cg] describes the ante chain the
+    code uses at height 0 (the same as for blocks unless the routing tells them apart) *)
+Fixpoint run_genesis (cg : cfg) (w : world) (s : st) (gentxs : list tx) : option st :=
+  match gentxs with
+  | [] => Some s
+  | x :: r => match deliver_in cg w s x with
+              | (s', true) => run_genesis cg w s' r
+              | (_, false) => None
+              end
+  end.
 
 (** history events: a transaction, or a governance proposal that passed (its messages are executed
     by the gov EndBlocker on a cache context, all or nothing, with the gov account as signer) *)
@@ -261,7 +280,7 @@ Definition cmp_of_site (x : comparison_site) (operand : string) (need_nil_safe :
 Definition cfg_of_facts (nonevm evm : list string) (x : ext_facts) (g : guard) (cs es : comparison_site)
            (sc : scan_facts) (mx : option Z) (wh : wasm_facts) (registered_ext : list string) : cfg :=
   {| cap := match mx with Some z => z | None => ONE + 1 end;
-     nonevm_known := match route_of x NoExt with RouteNonEVM => true | _ => false end;
+     nonevm_known := match route_of x NoExt with RouteNonEVM => true | _ => false end;   (* overridden for the genesis cfg *)
      evm_route := route_of x EvmExt;
      (* an extension option that is not registered with the codec fails tx decoding before any ante handler *)
      other_route := if forallb (String.eqb "ExtensionOptionsEthereumTx") registered_ext then RouteReject
@@ -278,6 +297,19 @@ Definition cfg_of_facts (nonevm evm : list string) (x : ext_facts) (g : guard) (
      cont_staking := s_after_create sc && s_after_edit sc && s_after_switch sc;
      cont_other := s_after_other sc && s_after_switch sc;
      wasm_check := w_commission_check wh |}.
+
+(** the configuration in force for gentxs (block height 0): the decorator list of the constructor the routing
+    picks at height 0; the route is known when that constructor's list could be read *)
+Definition genesis_cfg_of_facts (genesis_chain evm : list string) (x : ext_facts) (g : guard) (cs es : comparison_site)
+           (sc : scan_facts) (mx : option Z) (wh : wasm_facts) (registered_ext : list string) : cfg :=
+  let c := cfg_of_facts genesis_chain evm x g cs es sc mx wh registered_ext in
+  {| cap := cap c;
+     nonevm_known := negb (mem "?missing" genesis_chain) && negb (String.eqb (x_no_ext_height0 x) "?")
+                     && negb (String.eqb (x_no_ext_height0 x) "?multi");
+     evm_route := evm_route c; other_route := other_route c; evm_only_eth := evm_only_eth c;
+     vb_on := vb_on c; sig_on := sig_on c; dec_on := dec_on c; dec_create := dec_create c; dec_edit := dec_edit c;
+     dec_exec := dec_exec c; dec_rec := dec_rec c; cont_exec := cont_exec c; cont_staking := cont_staking c;
+     cont_other := cont_other c; wasm_check := wasm_check c |}.
 
 (** the code as committed with the two fix: commits (used for examples and witnesses) *)
 Definition cfg_fixed : cfg :=
